@@ -59,3 +59,43 @@ fn bounded_vshift() {
     }
     assert!(got.next().is_none());
 }
+
+// ---- C12, bounded: vrank (tea-map vec_map.rs; sorts an index vector, not under a Verus contract) assigns every non-null element its
+// average rank among the non-null elements - ascending or descending, optionally as a fraction of their count - and null to nulls,
+// for every NaN-encoded series of length 0..=3 over {null, -1, 0, 1}
+fn any_small_f() -> f64 {
+    if kani::any() { let v: i8 = kani::any(); kani::assume(-1 <= v && v <= 1); v as f64 } else { f64::NAN }
+}
+macro_rules! rank_harness {
+    ($name:ident, $n:literal) => {
+        #[kani::proof]
+        #[kani::unwind(8)]
+        fn $name() {
+            let a: [f64; $n] = [any_small_f(); $n].map(|_| any_small_f());
+            let (pct, rev): (bool, bool) = (kani::any(), kani::any());
+            let v: Vec<f64> = a.to_vec();
+            let r: Vec<f64> = v.vrank(pct, rev);
+            assert!(r.len() == $n);
+            let mut cnt = 0usize;
+            let mut j = 0;
+            while j < $n { if !a[j].is_nan() { cnt += 1; } j += 1; }
+            let mut i = 0;
+            while i < $n {
+                if a[i].is_nan() {
+                    assert!(r[i].is_nan());                      // null to nulls
+                } else {
+                    let (mut less, mut eq) = (0usize, 0usize);
+                    j = 0;
+                    while j < $n { if !a[j].is_nan() && j != i { if a[j] < a[i] { less += 1; } else if a[j] == a[i] { eq += 1; } } j += 1; }
+                    let asc = 1.0 + less as f64 + 0.5 * eq as f64;
+                    let want = if !rev { asc } else { (cnt + 1) as f64 - asc };
+                    if pct { let d = r[i] * cnt as f64 - want; assert!(d < 1e-9 && d > -1e-9); } else { assert!(r[i] == want); }
+                }
+                i += 1;
+            }
+        }
+    };
+}
+rank_harness!(bounded_vrank_len1, 1);
+rank_harness!(bounded_vrank_len2, 2);
+rank_harness!(bounded_vrank_len3, 3);
